@@ -129,14 +129,45 @@ def run_main(args, cwd=None):
     return code, buf.getvalue()
 
 
+FIXED_SHAPES = [
+    # a directory without CMake files of its own above one that has some (auto-exclusion must not descend)
+    (["top.cmake", "only_txt/notes.txt", "only_txt/deep/a.cmake", "keep/b.cmake", "keep/sub.dir/x1.cmake"], True, True, []),
+    # several excluded siblings next to each other, every CMake file of a directory excluded
+    (["top.cmake", "ex1/a.cmake", "ex2/a.cmake", "ex3/a.cmake", "keep/x1.cmake", "keep/x2.cmake"], True, True, ["ex*/", "x*.cmake"]),
+    # mixed-case extensions, names with dots and dashes, non-recursive run over a tree with sub-directories
+    (["a.cmake", "Upper.CMake", "dot.name.cmake", "dash-name.cmake", "keep/b.cmake"], False, True, []),
+    (["a.cmake", "keep/b.cmake", "keep/deep/x1.cmake", "empty/"], True, False, ["deep/"]),
+]
+
+
+def make_fixed(base, files):
+    for f in files:
+        p = os.path.join(base, f)
+        if f.endswith("/"):
+            os.makedirs(p, exist_ok=True)
+            continue
+        os.makedirs(os.path.dirname(p), exist_ok=True)
+        with open(p, "w") as fh:
+            name = os.path.basename(f)
+            fh.write(CMAKE_BODY.format(name="f_" + name.replace(".", "_").replace("-", "_")) if not name.endswith(".txt") else "text\n")
+
+
 def check_case(tmp, rnd, stats, case_id, violations, tier):
     import logging
     tree = os.path.join(tmp, f"in{case_id}", "proj")
     os.makedirs(tree)
-    make_tree(tree, rnd)
-    recursive = rnd.random() < 0.7
-    auto = rnd.random() < 0.6
+    if case_id < len(FIXED_SHAPES):
+        files, recursive, auto, fixed_pats = FIXED_SHAPES[case_id]
+        make_fixed(tree, files)
+        rnd.random(), rnd.random()
+    else:
+        make_tree(tree, rnd)
+        recursive = rnd.random() < 0.7
+        auto = rnd.random() < 0.6
+        fixed_pats = None
     pats = rnd.choice([[], ["ex*/"], ["x*.cmake"], ["ex*/", "x*.cmake"], ["only_txt/"], ["*.cmake"], ["deep/"], ["sub.dir/*.cmake"]])
+    if fixed_pats is not None:
+        pats = fixed_pats
     prefix = rnd.choice([None, "Pfx"])
     sep = rnd.choice([".", ".", "::", "-"])
     cfg = os.path.join(tmp, f"cfg{case_id}.yaml")
@@ -192,6 +223,20 @@ def check_case(tmp, rnd, stats, case_id, violations, tier):
             tgt = os.path.join(out, rel, e if e.endswith("index.rst") else e + ".rst")
             if not os.path.isfile(tgt):
                 bad("C14", {"index": rel, "dangling": e})
+    # C14 (consequence): every generated file is reachable from the top index.rst through the toctrees actually written
+    if os.path.isfile(os.path.join(out, "index.rst")):
+        reach, todo = set(), ["index.rst"]
+        while todo:
+            cur = os.path.normpath(todo.pop())
+            if cur in reach or not os.path.isfile(os.path.join(out, cur)):
+                continue
+            reach.add(cur)
+            if os.path.basename(cur) == "index.rst":
+                for e in toctree_entries(open(os.path.join(out, cur)).read()):
+                    todo.append(os.path.join(os.path.dirname(cur), e if e.endswith("index.rst") else e + ".rst"))
+        unreachable = sorted(got - reach)
+        if unreachable:
+            bad("C14", {"unreachable_from_top_index": unreachable[:6]})
     # C12: title and module name of every page = prefix . relative path without the .cmake extension
     for rel, (dirs, files) in exp.items():
         for f in files:
